@@ -1,6 +1,7 @@
 """C07 - streaming file-to-file transforms equal their whole-array definitions."""
 from __future__ import annotations
 
+import os
 import zlib
 
 import numpy as np
@@ -97,6 +98,8 @@ def generate(rng, tier) -> dict:
     ops = []
     for _ in range(rng.choice([1, 2, 2])):
         ops.append({"gulp": max(1, rng.choice([1, 2, 3, rng.randint(1, max(1, ns)), ns, ns + rng.randint(1, 4), max(1, ns // 2), max(1, ns // 3)]))})
+    if rng.random() < 0.1:
+        ops[rng.randrange(len(ops))]["gulp"] = None  # gulp left at its default
     if len(ops) == 2 and rng.random() < 0.3 and N >= 2:
         st2 = rng.randint(0, N - 1)
         ops[1].update({"start": st2, "nsamps": rng.randint(1, N - st2)})
@@ -125,7 +128,8 @@ def fixup(sc):
     if sc["nsamps"] is not None:
         sc["nsamps"] = max(1, min(sc["nsamps"], N - sc["start"]))
     for o in sc["ops"]:
-        o["gulp"] = max(1, o["gulp"])
+        if o["gulp"] is not None:
+            o["gulp"] = max(1, o["gulp"])
         if "start" in o:
             o["start"] = max(0, min(o["start"], N - 1))
             if o["nsamps"] is not None:
@@ -243,6 +247,7 @@ def execute(sc, ctx) -> None:
             delays = np.atleast_1d(np.asarray(reader.header.get_dmdelays(params["dm"])))
         crcs = []
         windows = []
+        kept = None
         if sc.get("pre"):
             # earlier, unrelated calls on the SAME reader object: the transform must not depend on them
             from .c06 import run_pre
@@ -277,22 +282,25 @@ def execute(sc, ctx) -> None:
                 ctx.probe("zerodm:in-range")
             ns_out = exps[0].data.shape[0]
             # probes from the arguments
-            g_eff = gulp
+            if gulp is None:
+                ctx.probe("default-gulp")
+            gnum = 16384 if gulp is None else gulp
+            g_eff = gnum
             skip = 0
             if name == "downsample" and spec["mode"] == "flat":
                 ctx.probe("decimation:exact-integer-means")
             if name == "downsample":
-                g_eff = int(np.ceil(gulp / params["tfactor"]) * params["tfactor"])
-                if g_eff != gulp:
+                g_eff = int(np.ceil(gnum / params["tfactor"]) * params["tfactor"])
+                if g_eff != gnum:
                     ctx.probe("decimation:gulp-rounded-up")
                 if min(g_eff, ns) != nchans:
                     ctx.probe("decimation:gulp!=nchans")
                 if ns > g_eff and 0 < ns % g_eff < params["tfactor"]:
                     ctx.probe("decimation:remainder-block<tfactor")
             if name == "subband":
-                g_eff = max(2 * md, gulp)
+                g_eff = max(2 * md, gnum)
                 skip = md
-                if g_eff != gulp:
+                if g_eff != gnum:
                     ctx.probe("subband:gulp-raised-to-2maxdelay")
             nblk = blocks_of(ns, min(g_eff, ns), skip)
             if nblk >= 3:
@@ -311,7 +319,9 @@ def execute(sc, ctx) -> None:
             raised = None
             outs = None
             try:
-                outs = T.call(name, reader, ctx.root, params, gulp, start, nsamps)
+                outdir = os.path.join(ctx.root, f"out{i}")
+                os.makedirs(outdir, exist_ok=True)
+                outs = T.call(name, reader, outdir, params, gulp, start, nsamps)
             except SimLivelock as e:
                 raise Violation(f"C07/{name}/livelock/{eof}", str(e), info) from None
             except Violation:
@@ -350,6 +360,18 @@ def execute(sc, ctx) -> None:
                     raise mk("reader-infers-other-count", f"{ctx.rel(path)}: FilReader says {hdr_ns}, definition {ns_out}")
             ctx.probe(f"ok:{name}")
             ctx.log("call", i, name, gulp, start, ns, these)
+            if kept is not None:
+                # the products of the FIRST call must still be what they were (another call on the reader wrote elsewhere)
+                for pth, crc in kept:
+                    with open(pth, "rb") as fp:
+                        if zlib.crc32(fp.read()) != crc:
+                            raise mk("earlier-product-changed-by-a-later-call", ctx.rel(pth))
+                ctx.probe("earlier-products-rechecked")
+            else:
+                kept = []
+                for pth in outs:
+                    with open(pth, "rb") as fp:
+                        kept.append((pth, zlib.crc32(fp.read())))
             crcs.append(these)
             windows.append((start, ns))
         if len(crcs) >= 2 and windows[0] == windows[1]:
